@@ -1691,8 +1691,11 @@ class Pool:
             if self._putlock:
                 self._putlock.clear()
             self._worker_handler.close()
-            self._taskqueue.put(None)
+            # the supervisor may be replacing a worker right now: the task
+            # handler counts the workers (one exit sentinel each) when it
+            # gets its own sentinel, so wait until the pool no longer changes
             stop_if_not_current(self._worker_handler)
+            self._taskqueue.put(None)
 
     def terminate(self):
         debug('terminating pool')
